@@ -1010,7 +1010,14 @@ class WorkerPool:
             if not keep_alive:
                 for wid, worker_process in enumerate(self._workers):
                     try:
-                        worker_process.join()
+                        # A worker can still be busy with its worker_exit function, which can raise or time out. Keep an
+                        # eye on the exception event, such that we don't wait for the other workers in that case
+                        while not self._worker_comms.exception_thrown():
+                            worker_process.join(timeout=0.01)
+                            if not worker_process.is_alive():
+                                break
+                        if self._worker_comms.exception_thrown():
+                            self._handle_exception()
                     except ValueError:
                         raise
                     # Added since Python 3.7. This will clean up any resources that are left. For some reason though,
